@@ -12,6 +12,7 @@ import (
 	"bytes"
 	"fmt"
 	"go/ast"
+	"go/parser"
 	"go/printer"
 	"go/token"
 	"path/filepath"
@@ -44,6 +45,7 @@ type entry struct {
 	nWatch, nTarget, nCommon int
 	loops                    map[string]string // local slice variable → binding field it maps with .Bytes()
 	errs                     [][3]string       // error reports: site, call shape, Idx expression
+	body                     []string          // the WHOLE entry function (go/printer lines), entry-specific names replaced by placeholders
 }
 
 // mapBytesLoop recognises
@@ -215,9 +217,142 @@ func tableEntries(fset *token.FileSet, f *ast.File, table string, consts map[str
 			return true
 		})
 		en.errs = errorReports(fset, fl.Body)
+		en.body = entryBody(fset, fl, &en)
 		out = append(out, en)
 	}
 	return out, nil
+}
+
+// lines prints a node with go/printer and returns its non-empty lines, white space normalised.
+func lines(fset *token.FileSet, n ast.Node) []string {
+	var b bytes.Buffer
+	printer.Fprint(&b, fset, n)
+	var out []string
+	for _, l := range strings.Split(b.String(), "\n") {
+		if t := strings.Join(strings.Fields(l), " "); t != "" {
+			out = append(out, t)
+		}
+	}
+	return out
+}
+
+// entryBody prints the whole function literal of a table entry (signature and every statement, go/printer, one
+// element per printed line) and replaces what legitimately differs between entries by placeholders: the
+// `&T{…}` literal assigned to l (its content is in `assigns`) by &«L», the element type of transitChan by «B»,
+// the Watch method by «W».  Everything else — any statement before, between or after the two literals —
+// stays and is pinned by table_faithful.  (The AST is a private parse; the literal is replaced in it.)
+func entryBody(fset *token.FileSet, fl *ast.FuncLit, en *entry) []string {
+	ast.Inspect(fl.Body, func(n ast.Node) bool {
+		if as, ok := n.(*ast.AssignStmt); ok && len(as.Lhs) == 1 && len(as.Rhs) == 1 && src(fset, as.Lhs[0]) == "l" {
+			if ue, ok := as.Rhs[0].(*ast.UnaryExpr); ok && ue.Op == token.AND {
+				if _, ok := ue.X.(*ast.CompositeLit); ok {
+					as.Rhs[0] = &ast.Ident{Name: "&«L»", NamePos: ue.Pos()}
+				}
+			}
+		}
+		return true
+	})
+	out := lines(fset, fl)
+	for i, text := range out {
+		if en.binding != "" {
+			text = strings.ReplaceAll(text, en.binding, "«B»")
+		}
+		if en.watch != "" {
+			text = strings.ReplaceAll(text, "."+en.watch+"(", ".«W»(")
+		}
+		out[i] = text
+	}
+	return out
+}
+
+// constDuration evaluates a product of integer literals and time.<Unit> selectors to milliseconds.
+func constDuration(fset *token.FileSet, e ast.Expr) (ms int64, ok bool) {
+	switch x := e.(type) {
+	case *ast.ParenExpr:
+		return constDuration(fset, x.X)
+	case *ast.BasicLit:
+		if x.Kind == token.INT {
+			var v int64
+			if _, err := fmt.Sscan(x.Value, &v); err == nil {
+				return v, true
+			}
+		}
+	case *ast.SelectorExpr:
+		units := map[string]int64{"time.Millisecond": 1, "time.Second": 1000, "time.Minute": 60000, "time.Hour": 3600000}
+		if u, ok := units[src(fset, x)]; ok {
+			return u, true
+		}
+	case *ast.BinaryExpr:
+		if x.Op == token.MUL {
+			a, ok1 := constDuration(fset, x.X)
+			b, ok2 := constDuration(fset, x.Y)
+			if ok1 && ok2 {
+				return a * b, true
+			}
+		}
+	}
+	return 0, false
+}
+
+// dedupWindow: the argument of every time.After call in firstEvent, resolved through a package-level
+// variable / constant if it is a plain identifier, evaluated to milliseconds (0 = not a constant product).
+func dedupWindow(fset *token.FileSet, f *ast.File) (args []string, ms int64, assigned int) {
+	fd := ex.FuncDecl(f, "", "firstEvent")
+	if fd == nil {
+		return nil, 0, 0
+	}
+	ms = -1
+	ast.Inspect(fd.Body, func(n ast.Node) bool {
+		call, ok := n.(*ast.CallExpr)
+		if !ok || len(call.Args) != 1 {
+			return true
+		}
+		fn := src(fset, call.Fun)
+		if fn != "time.After" && fn != "time.NewTimer" && fn != "time.AfterFunc" && fn != "time.Sleep" {
+			return true
+		}
+		args = append(args, fn+"("+src(fset, call.Args[0])+")")
+		arg := call.Args[0]
+		if id, ok := arg.(*ast.Ident); ok {
+			for _, d := range f.Decls {
+				if gd, ok := d.(*ast.GenDecl); ok && (gd.Tok == token.VAR || gd.Tok == token.CONST) {
+					for _, sp := range gd.Specs {
+						vs := sp.(*ast.ValueSpec)
+						for k, nm := range vs.Names {
+							if nm.Name == id.Name && k < len(vs.Values) {
+								arg = vs.Values[k]
+							}
+						}
+					}
+				}
+			}
+			// the variable must not be assigned anywhere in the package file (outside verif hook files, which the
+			// extractor does not read): count assignments to it
+			ast.Inspect(f, func(m ast.Node) bool {
+				if as, ok := m.(*ast.AssignStmt); ok {
+					for _, l := range as.Lhs {
+						if src(fset, l) == id.Name {
+							assigned++
+						}
+					}
+				}
+				if inc, ok := m.(*ast.IncDecStmt); ok && src(fset, inc.X) == id.Name {
+					assigned++
+				}
+				return true
+			})
+		}
+		if v, ok := constDuration(fset, arg); ok && (ms == -1 || ms == v) {
+			ms = v
+		} else {
+			ms = 0
+		}
+		return true
+	})
+	if ms < 0 {
+		ms = 0
+	}
+	return
 }
 
 // errorReports finds every &OnchainError{…} literal of a table entry with the place it is built in
@@ -382,9 +517,15 @@ func run(repo string) (string, error) {
 		}
 		return cnames[a] < cnames[b]
 	})
+	// a second parse WITHOUT comments: the function texts below must not depend on them
+	fsetNC := token.NewFileSet()
+	fNC, err := parser.ParseFile(fsetNC, filepath.Join(repo, "onchain", "eth_subscribe.go"), nil, 0)
+	if err != nil {
+		return "", err
+	}
 	var entries []entry
 	for _, t := range []string{"proxyTable", "crTable"} {
-		es, err := tableEntries(fset, f, t, consts)
+		es, err := tableEntries(fsetNC, fNC, t, consts)
 		if err != nil {
 			return "", err
 		}
@@ -476,6 +617,7 @@ structure Entry where
   sent : String                      -- what is sent on ` + "`out`" + `
   counts : Nat × Nat × Nat           -- number of Watch calls, ` + "`l :=`" + ` literals, ` + "`log =`" + ` literals in the entry
   errs : List (String × String × String)  -- every OnchainError literal: site (watch | subErr | …), call it is passed to, Idx expression
+  body : List String                 -- the WHOLE entry function as go/printer prints it, line by line (white space normalised); placeholders: &«L» the literal assigned to l, «B» the binding type, «W» the Watch method
   deriving DecidableEq, Repr
 
 structure StructDef where
@@ -518,15 +660,22 @@ structure WatchMethod where
 		}
 		return "[" + strings.Join(s, ", ") + "]"
 	}
+	strList := func(ss []string) string {
+		var q []string
+		for _, x := range ss {
+			q = append(q, ex.LeanStr(x))
+		}
+		return "[" + strings.Join(q, ",\n      ") + "]"
+	}
 	b.WriteString("def entries : List Entry := [\n")
 	for i, e := range entries {
 		sep := ","
 		if i == len(entries)-1 {
 			sep = ""
 		}
-		fmt.Fprintf(&b, "  { table := %s, key := %s, index := %s, binding := %s,\n    watchRecv := %s, watch := %s, target := %s,\n    assigns := %s,\n    commonType := %s,\n    common := %s,\n    sent := %s, counts := (%d, %d, %d),\n    errs := %s }%s\n",
+		fmt.Fprintf(&b, "  { table := %s, key := %s, index := %s, binding := %s,\n    watchRecv := %s, watch := %s, target := %s,\n    assigns := %s,\n    commonType := %s,\n    common := %s,\n    sent := %s, counts := (%d, %d, %d),\n    errs := %s,\n    body := %s }%s\n",
 			ex.LeanStr(e.table), ex.LeanStr(e.key), e.index, ex.LeanStr(e.binding), ex.LeanStr(e.watchRecv), ex.LeanStr(e.watch), ex.LeanStr(e.target),
-			pairList(e.assigns, false), ex.LeanStr(e.commonType), pairList(e.common, true), ex.LeanStr(e.sent), e.nWatch, e.nTarget, e.nCommon, tripleList(e.errs), sep)
+			pairList(e.assigns, false), ex.LeanStr(e.commonType), pairList(e.common, true), ex.LeanStr(e.sent), e.nWatch, e.nTarget, e.nCommon, tripleList(e.errs), strList(e.body), sep)
 	}
 	b.WriteString("]\n\n")
 	structList := func(name string, sds []structDef) {
@@ -611,6 +760,24 @@ structure WatchMethod where
 		}
 		b.WriteString(ex.LeanStr(s))
 	}
-	b.WriteString("]\n\nend Dos.Gen.EventTable\n")
+	b.WriteString("]\n\n")
+	// firstEvent: the de-duplication window and the whole function
+	wargs, wms, wassigned := dedupWindow(fset, f)
+	b.WriteString("/-- every timer call of firstEvent with its argument -/\ndef dedupTimerCalls : List String := [")
+	for i, a := range wargs {
+		if i > 0 {
+			b.WriteString(", ")
+		}
+		b.WriteString(ex.LeanStr(a))
+	}
+	b.WriteString("]\n\n")
+	fmt.Fprintf(&b, "/-- that argument (through the package-level variable it names) evaluated, in milliseconds (0: not a constant product) -/\ndef dedupWindowMillis : Nat := %d\n\n", wms)
+	fmt.Fprintf(&b, "/-- assignments to that variable anywhere in eth_subscribe.go (its declaration aside) -/\ndef dedupWindowAssignments : Nat := %d\n\n", wassigned)
+	feBody := []string{"(missing)"}
+	if fd := ex.FuncDecl(fNC, "", "firstEvent"); fd != nil {
+		feBody = lines(fsetNC, fd)
+	}
+	fmt.Fprintf(&b, "/-- firstEvent, whole function (go/printer, line by line, white space normalised) -/\ndef firstEventBody : List String := %s\n\n", strList(feBody))
+	b.WriteString("end Dos.Gen.EventTable\n")
 	return b.String(), nil
 }
